@@ -131,8 +131,9 @@ def range_tables(rows8, rows8x, tier, rng, rep, stats):
                         desc["cause"], desc["dev"], pred = hz["cause"], hz["dev"], hz["pred"]
                         stats["hazard_calls"] += 1
                     tabs[tag].add("r_%s_%s_%s" % (form, L.sname(s), bounds), [a, b, bk, ck], want, desc, pred)
-    # (R1e, thorough) every (start, stop) of the real 8-bit types (|step| > 1): typed bounds; the plain body
-    # everywhere, plus a breaking and a continuing body where a wrap event exists
+    # (R1e, thorough) the exhaustive rows of the real 8-bit types (|step| > 1), typed bounds: every case with a
+    # wrap event (plain, breaking and continuing body), every case of at most 8 iterations and a seeded 1/8 of the
+    # longer ones (plain body; CPython needs ~0.2 ms for each of them)
     seen = {(r["s"], r["form"], r["step"], r["start"], b) for r in rows8 for b in r["stops"]}
     for r in rows8x:
         tag = "schar" if r["s"] else "uchar"
@@ -142,6 +143,9 @@ def range_tables(rows8, rows8x, tier, rng, rep, stats):
             if (r["s"], form, s, a, b) in seen:
                 continue
             n, m, ev = r["n"][i], r["m"][i], r["ev"][i]
+            if not ev and n > 8 and rng.randrange(8):
+                stats["exhaustive_8bit_cases_not_replayed"] += 1
+                continue
             for bk, ck in ([(0, 0), (2, 0), (0, 1)] if ev else BODIES[:1]):
                 pred = None
                 desc = {"part": "range", "type": tag, "signed": bool(r["s"]), "bounds": "t", "form": form, "cause": "", "dev": False,
